@@ -65,6 +65,12 @@ def _run_inline(prop, case, tier):
     return _finish(v, case)
 
 
+def _die_with_parent():
+    from . import polar_driver as _pd
+
+    _pd.die_with_parent()
+
+
 def guarded_run(prop, case, tier):
     """
     Run one case in a forked child process.  Every case therefore starts from the same process state (modules
@@ -83,6 +89,9 @@ def guarded_run(prop, case, tier):
         code = 0
         try:
             os.close(rfd)
+            from . import polar_driver as _pd
+
+            _pd.die_with_parent()
             v = _run_inline(prop, case, tier)
             data = json.dumps(v, default=str).encode()
             with os.fdopen(wfd, "wb") as f:
@@ -243,7 +252,7 @@ def replay_main(argv):
 def run_replay_subprocess(pid, path, tier="quick", timeout=900):
     env = dict(os.environ, PYTHONHASHSEED="0")
     p = subprocess.run([PY, "-m", "lib.runner", "--replay-worker", pid, path, tier], cwd=VERIF, env=env,
-                       capture_output=True, text=True, timeout=timeout)
+                       capture_output=True, text=True, timeout=timeout, preexec_fn=_die_with_parent)
     for line in p.stdout.splitlines():
         if line.startswith("REPLAY-RESULT "):
             return json.loads(line[len("REPLAY-RESULT "):])
@@ -321,7 +330,7 @@ def check_main(argv):
             os.remove(outfile)
         log = open(os.path.join(run_dir, f"shard{sh}.log"), "w")
         p = subprocess.Popen([PY, "-m", "lib.runner", "--worker", pid, args.tier, str(seed), str(sh), outfile,
-                              ",".join(enabled)], cwd=VERIF, env=env, stdout=log, stderr=subprocess.STDOUT)
+                              ",".join(enabled)], cwd=VERIF, env=env, stdout=log, stderr=subprocess.STDOUT, preexec_fn=_die_with_parent)
         procs.append((sh, p, outfile, log))
     deadline = time.time() + bud.get("shard_timeout", 3600)
     recs = []
